@@ -553,7 +553,7 @@ class Run(object):
                         raise run.new_err(10000 + t * 100 + k)
                     elif tk == "raiseb":
                         run.emit("SegEnd", t=t, k=k, b=4, s=V("N"), a=run.active_id())
-                        e = VBaseErr(11000 + t * 100 + k)
+                        e = VBaseErr(500000 + t * 100 + k)
                         run.exc_ids(e)
                         raise e
                     else:
